@@ -4,6 +4,7 @@ pub mod rpkigen;
 pub mod erpki;
 pub mod escen;
 pub mod erun;
+pub mod hist;
 pub mod c01;
 pub mod c02;
 pub mod c03;
